@@ -364,20 +364,33 @@ func tarjanFuncs(nodes []*ssa.Function, succ map[*ssa.Function][]*ssa.Function) 
 	return out
 }
 
-// termSCC looks for the visited-set / in-progress-set witness of a recursive SCC.
+// termSCC looks for the visited-set / in-progress-set witness of a recursive SCC. When the cycle runs through
+// several named functions (a step extracted into a helper that calls back), each of them is tried as the function
+// that carries the witness.
 func (c *Ctx) termSCC(scc []*ssa.Function) {
+	var named []*ssa.Function
+	for _, g := range scc {
+		if g.Parent() == nil {
+			named = append(named, g)
+		}
+	}
+	sort.Slice(named, func(i, j int) bool { return named[i].Pos() < named[j].Pos() })
+	if len(named) == 0 {
+		named = []*ssa.Function{scc[0]}
+	}
+	for _, f := range named {
+		if c.termSCCWith(scc, f, true) {
+			return
+		}
+	}
+	c.termSCCWith(scc, named[0], false)
+}
+
+func (c *Ctx) termSCCWith(scc []*ssa.Function, f *ssa.Function, quiet bool) bool {
 	p := c.P
-	// the named function of the SCC
-	var f *ssa.Function
 	inSCC := map[*ssa.Function]bool{}
 	for _, g := range scc {
 		inSCC[g] = true
-		if g.Parent() == nil {
-			f = g
-		}
-	}
-	if f == nil {
-		f = scc[0]
 	}
 	name := core.FuncName(f)
 	c.R.Func(name)
@@ -415,44 +428,83 @@ func (c *Ctx) termSCC(scc []*ssa.Function) {
 			}
 		}
 	}
-	// inserts (in f, or one level down in a callee that receives the struct)
+	// set operations on a candidate: direct (M[k] = …, delete(M, k)) or one level down in a callee outside the SCC
+	// whose parameter is the key (markX(k) / unmarkX(k) helpers); keys are rendered in f's terms
+	type setOp struct {
+		in       ssa.Instruction
+		key      string
+		deferred bool
+	}
+	collect := func(isM func(ssa.Value) bool, del bool) []setOp {
+		var out []setOp
+		core.Instrs(f, func(in ssa.Instruction) {
+			if !del {
+				if mu, ok := in.(*ssa.MapUpdate); ok && isM(mu.Map) {
+					out = append(out, setOp{in, core.Path(mu.Key), false})
+					return
+				}
+			}
+			ci, ok := in.(ssa.CallInstruction)
+			if !ok {
+				return
+			}
+			_, isDefer := in.(*ssa.Defer)
+			if del && core.CalleeName(ci.Common()) == "builtin.delete" && isM(ci.Common().Args[0]) {
+				out = append(out, setOp{in, core.Path(ci.Common().Args[1]), isDefer})
+				return
+			}
+			cal := ci.Common().StaticCallee()
+			if cal == nil || !p.InTarget(cal) || inSCC[cal] || len(cal.Blocks) == 0 {
+				return
+			}
+			key, found := "", false
+			bind := func(v ssa.Value) string {
+				if prm, ok := core.Strip(v).(*ssa.Parameter); ok {
+					for i, q := range cal.Params {
+						if q == prm && i < len(ci.Common().Args) {
+							return core.Path(ci.Common().Args[i])
+						}
+					}
+				}
+				return "callee:" + core.Path(v)
+			}
+			core.Instrs(cal, func(in2 ssa.Instruction) {
+				if !del {
+					if mu, ok := in2.(*ssa.MapUpdate); ok && isM(mu.Map) {
+						key, found = bind(mu.Key), true
+					}
+					return
+				}
+				if dc, ok := in2.(ssa.CallInstruction); ok && core.CalleeName(dc.Common()) == "builtin.delete" && isM(dc.Common().Args[0]) {
+					if _, nested := in2.(*ssa.Defer); !nested {
+						key, found = bind(dc.Common().Args[1]), true
+					}
+				}
+			})
+			if found {
+				out = append(out, setOp{in, key, isDefer})
+			}
+		})
+		return out
+	}
 	best := -1
 	var report []string
 	for i := range cands {
 		cd := &cands[i]
-		core.Instrs(f, func(in ssa.Instruction) {
-			if mu, ok := in.(*ssa.MapUpdate); ok && cd.isM(mu.Map) {
-				cd.insert = append(cd.insert, in)
-			}
-			if ci, ok := in.(ssa.CallInstruction); ok {
-				if cal := ci.Common().StaticCallee(); cal != nil && p.InTarget(cal) && !inSCC[cal] {
-					found := false
-					core.Instrs(cal, func(in2 ssa.Instruction) {
-						if mu, ok := in2.(*ssa.MapUpdate); ok && cd.isM(mu.Map) {
-							found = true
-						}
-					})
-					if found {
-						cd.insert = append(cd.insert, in)
-					}
-				}
-			}
-		})
+		ins := collect(cd.isM, false)
+		for _, o := range ins {
+			cd.insert = append(cd.insert, o.in)
+		}
 		if len(cd.insert) == 0 {
 			continue
 		}
-		// W1: an insertion dominates every recursive call site (for closure sites: the closure's creation)
+		// W1: an insertion dominates every recursive call site (for closure sites: the closure's creation; for a
+		// site in a private helper of the SCC: every call of that helper)
 		w1 := true
 		for _, s := range sites {
-			anchor := ssa.Instruction(s)
-			if s.Parent() != f {
-				if mc := p.ClosureSite(s.Parent()); mc != nil {
-					anchor = mc
-				}
-			}
 			d := false
-			for _, ins := range cd.insert {
-				if anchor.Parent() == f && core.InstrDominates(ins, anchor) {
+			for _, in := range cd.insert {
+				if p.IDominates(in, s, f) {
 					d = true
 				}
 			}
@@ -465,13 +517,15 @@ func (c *Ctx) termSCC(scc []*ssa.Function) {
 		w2how := ""
 		for _, s := range sites {
 			anchor := ssa.Instruction(s)
-			if s.Parent() != f {
-				if mc := p.ClosureSite(s.Parent()); mc != nil {
+			host := s.Parent()
+			if host != f && host.Parent() != nil {
+				if mc := p.ClosureSite(host); mc != nil {
 					anchor = mc
+					host = mc.Parent()
 					// the closure is consumed by a call in the same block (callback invocation): guard of that block
 				}
 			}
-			g, how := c.guardedByLookup(f, anchor.Block(), cd.isM)
+			g, how := c.guardedByLookup(host, anchor.Block(), cd.isM)
 			if !g {
 				w2 = false
 			} else {
@@ -486,15 +540,26 @@ func (c *Ctx) termSCC(scc []*ssa.Function) {
 			c.R.Add("TERM-W2", name+"|"+cd.desc, name, p.InstrPos(sites[0]), true,
 				"every recursive call is guarded by a membership test on that set", w2how)
 			// W3: in-progress discipline when the set is also released
-			c.termRelease(f, name, cd.desc, cd.isM, cd.insert, sites)
+			dels := collect(cd.isM, true)
+			var plain, deferred []ssa.Instruction
+			var pk, dk []string
+			for _, o := range dels {
+				if o.deferred {
+					deferred, dk = append(deferred, o.in), append(dk, o.key)
+				} else {
+					plain, pk = append(plain, o.in), append(pk, o.key)
+				}
+			}
+			c.termRelease(f, name, cd.desc, ins[0].in, ins[0].key, plain, pk, deferred, dk, sites)
 			break
 		}
 	}
-	if best < 0 {
+	if best < 0 && !quiet {
 		c.R.Add("TERM-W1", name+"|witness", name, p.Pos(f.Pos()), false,
 			"a recursive function carries a visited-set or in-progress-set witness (insertion before recursion, membership test guarding it)",
 			"no witness found; candidates: "+strings.Join(report, "; "))
 	}
+	return best >= 0
 }
 
 func resolvesToParam(p *core.Prog, v ssa.Value, prm *ssa.Parameter) bool {
@@ -510,7 +575,7 @@ func resolvesToParam(p *core.Prog, v ssa.Value, prm *ssa.Parameter) bool {
 // (`_, ok := M[k]; !ok`, `M[k] == 0`) or through the unsatisfied-list form: a
 // list whose appends are guarded by `ok(M[k])` and whose non-emptiness returns before b.
 func (c *Ctx) guardedByLookup(f *ssa.Function, b *ssa.BasicBlock, isM func(ssa.Value) bool) (bool, string) {
-	lits := core.Lits(core.Guards(b))
+	lits := c.P.ExpandLits(c.P.ILits(b))
 	for _, l := range lits {
 		if l.Kind == "ok" && !l.Pol {
 			if lk, ok := l.Of.(*ssa.Lookup); ok && isM(lk.X) {
@@ -542,7 +607,7 @@ func (c *Ctx) guardedByLookup(f *ssa.Function, b *ssa.BasicBlock, isM func(ssa.V
 		}
 		list := cl.Common().Args[0]
 		for _, ap := range appendSites(f, list) {
-			for _, l2 := range core.Lits(core.Guards(ap.Block())) {
+			for _, l2 := range c.P.ExpandLits(c.P.ILits(ap.Block())) {
 				if l2.Kind == "ok" && l2.Pol {
 					if lk, ok := l2.Of.(*ssa.Lookup); ok && isM(lk.X) {
 						return true, "guarded by emptiness of a list that receives an entry whenever a vertex on a chosen path is in the set"
@@ -555,68 +620,56 @@ func (c *Ctx) guardedByLookup(f *ssa.Function, b *ssa.BasicBlock, isM func(ssa.V
 }
 
 // termRelease checks the stack discipline of an in-progress set (W3).
-func (c *Ctx) termRelease(f *ssa.Function, name, desc string, isM func(ssa.Value) bool, inserts []ssa.Instruction, sites []ssa.CallInstruction) {
+func (c *Ctx) termRelease(f *ssa.Function, name, desc string, ins ssa.Instruction, insKey string, plain []ssa.Instruction, plainKeys []string, deferred []ssa.Instruction, deferredKeys []string, sites []ssa.CallInstruction) {
 	p := c.P
-	var deferred, plain []ssa.CallInstruction
-	core.Instrs(f, func(in ssa.Instruction) {
-		ci, ok := in.(ssa.CallInstruction)
-		if !ok || core.CalleeName(ci.Common()) != "builtin.delete" || !isM(ci.Common().Args[0]) {
-			return
-		}
-		if _, isDefer := in.(*ssa.Defer); isDefer {
-			deferred = append(deferred, ci)
-		} else {
-			plain = append(plain, ci)
-		}
-	})
 	if len(deferred)+len(plain) == 0 {
 		return // a pure visited set: never released, nothing to check
 	}
 	// (a) released on every exit: a defer right after the insertion with the same key, or a delete before every return
-	ins, _ := inserts[0].(*ssa.MapUpdate)
 	releasedAll := false
 	how := ""
-	if ins != nil {
-		for _, d := range deferred {
-			if core.Path(d.Common().Args[1]) == core.Path(ins.Key) && core.InstrDominates(ins, d) && d.Block() == ins.Block() {
-				// no return can happen between insertion and defer registration (same block)
-				releasedAll, how = true, "defer delete(set, key) registered in the block of the insertion"
-			}
-		}
-		if !releasedAll && len(plain) > 0 {
-			releasedAll = true
-			for _, r := range core.Returns(f) {
-				if !core.InstrDominates(ins, r) && !core.CanFollow(ins, r) {
-					continue
-				}
-				covered := false
-				for _, d := range plain {
-					if core.Path(d.Common().Args[1]) == core.Path(ins.Key) && core.InstrDominates(d, r) {
-						covered = true
-					}
-				}
-				if !covered {
-					releasedAll = false
-					how = "return at " + p.InstrPos(r) + " is not preceded by a release"
-				}
-			}
-			if releasedAll {
-				how = "explicit delete before every return"
-			}
+	for i, d := range deferred {
+		if deferredKeys[i] == insKey && core.InstrDominates(ins, d) && d.Block() == ins.Block() {
+			// no return can happen between insertion and defer registration (same block)
+			releasedAll, how = true, "deferred release (same key) registered in the block of the insertion"
 		}
 	}
-	c.R.Add("TERM-W3", name+"|"+desc+"|released-on-every-exit", name, p.InstrPos(inserts[0]), releasedAll,
+	if !releasedAll && len(plain) > 0 {
+		releasedAll = true
+		for _, r := range core.Returns(f) {
+			if !core.InstrDominates(ins, r) && !core.CanFollow(ins, r) {
+				continue
+			}
+			covered := false
+			for i, d := range plain {
+				if plainKeys[i] == insKey && core.InstrDominates(d, r) {
+					covered = true
+				}
+			}
+			if !covered {
+				releasedAll = false
+				how = "return at " + p.InstrPos(r) + " is not preceded by a release"
+			}
+		}
+		if releasedAll {
+			how = "explicit release before every return"
+		}
+	}
+	c.R.Add("TERM-W3", name+"|"+desc+"|released-on-every-exit", name, p.InstrPos(ins), releasedAll,
 		"an in-progress set is a stack discipline: what a call inserts it releases on every exit (otherwise an acyclic converter set in which one converter is needed twice is misreported as cyclic)",
 		ternary(releasedAll, how, "insertion not released on all exits: "+how))
-	// (b) not released early: no non-deferred delete can execute before a recursive call
+	// (b) not released early: no non-deferred release can execute before a recursive call
 	early := ""
 	for _, d := range plain {
 		for _, s := range sites {
-			if s.Parent() == f && core.CanFollow(d, s) {
-				early = "delete at " + p.InstrPos(d) + " can execute before the recursive call at " + p.InstrPos(s)
+			anchors, _ := p.Anchors(s, f)
+			for _, a := range anchors {
+				if core.CanFollow(d, a) {
+					early = "release at " + p.InstrPos(d) + " can execute before the recursive call at " + p.InstrPos(s)
+				}
 			}
 		}
 	}
-	c.R.Add("TERM-W3", name+"|"+desc+"|held-during-recursion", name, p.InstrPos(inserts[0]), early == "",
+	c.R.Add("TERM-W3", name+"|"+desc+"|held-during-recursion", name, p.InstrPos(ins), early == "",
 		"the in-progress mark is held for the whole time nested resolution can run (otherwise mutually dependent converters recurse without bound)", ternary(early == "", "no release before a recursive call", early))
 }
